@@ -42,6 +42,7 @@ const poolID = "p1"
 // siblingPools: ids of OTHER pools whose records live in the same store ("/allocation/<pool>/<subscriber>").
 // Their keys must neither be loaded nor watched by the pool under test; "p10" and "p1-b" start with its id.
 var siblingPools = []string{"p10", "p1-b", "p10", "p", "P1"}
+
 const keyPrefix = "/allocation/" + poolID + "/"
 const epochPeriod = time.Hour
 
@@ -59,9 +60,9 @@ type distCase struct {
 	Unit     int
 	Grace    int
 	Ops      []op
-	QOrder   []int // ranking for Query results
-	Racy     bool  // deliveries may be late (after later local ops on the key) and out of per-key order
-	Exercise bool  // do not steer around listed findings
+	QOrder   []int    // ranking for Query results
+	Racy     bool     // deliveries may be late (after later local ops on the key) and out of per-key order
+	Exercise bool     // do not steer around listed findings
 	Sibling  string   // id of another pool that keeps records in the same store ("" = "p10")
 	IDScheme string   // name of the subscriber-id alphabet
 	IDs      []string // the alphabet: nSubs distinct ids (nil: defaultSubs)
@@ -141,14 +142,20 @@ type node struct {
 	ctx    context.Context
 	out    *runOut
 
-	touched       map[string]uint64 // lease: epoch of the last allocate/renew/load the model saw
-	expired       map[string]bool   // lease: model says the lease ran out (store record may linger)
-	taint         string            // "" or "racy-delivery"
-	steer         steering
-	cleanupFailed bool // a store call made by the epoch loop failed in this run
-	restarted     bool // an in-history restart happened (the epoch counter started again at 2)
-	notUp         bool // the last Start failed (its load was made to fail): this node never served
-	preDisagree   bool // memory and store disagreed about the call's subscriber before the call began
+	touched map[string]uint64 // lease: epoch of the last allocate/renew/load the model saw
+	expired map[string]bool   // lease: model says the lease ran out (store record may linger)
+	// evidence for the listed finding <mode>/after-racy-delivery (KF-C12-5a/5b): which subscribers' memory was
+	// changed by an event that was STALE w.r.t. the store when it was delivered (and has not been brought back
+	// in line with the store since), and which addresses those events dropped / resurrected
+	staleSubs  map[string]string // subscriber -> description of the stale event that changed its memory
+	staleAddrs map[string]string // address -> subscriber whose stale event dropped / resurrected it
+	steer      steering
+	// evidence for the listed findings store-duplicate-address/expired-record* (KF-C12-6/6b/7)
+	lastTickFailedKeys []string        // "<op> <key>" of the store calls that failed during the most recent epoch-loop tick
+	manualAdvance      bool            // the epoch last moved through AdvanceEpoch (no cleanup pass runs then)
+	loadTouched        map[string]bool // lease: the in-memory lease stems from a restart's load and was not renewed since
+	notUp              bool            // the last Start failed (its load was made to fail): this node never served
+	preDisagree        bool            // memory and store disagreed about the call's subscriber before the call began
 }
 
 type steering struct {
@@ -180,30 +187,94 @@ func (n *node) logf(f string, a ...any) { n.out.trace = append(n.out.trace, fmt.
 
 func (n *node) class(c string) { n.out.classes[c] = true }
 
+// fail reports a violation under its precise signature.
 func (n *node) fail(kind, f string, a ...any) *violation {
-	return n.failT(kind, true, f, a...)
+	return n.failOn(kind, nil, nil, f, a...)
 }
 
-// failT: withTaint appends the worst delivery irregularity seen so far to the signature
-// (so a defect that needs late/reordered delivery is told apart from one that does not).
-func (n *node) failT(kind string, withTaint bool, f string, a ...any) *violation {
+// staleKinds: what the recorded root cause of KF-C12-5a/5b (a watch event carrying a stale snapshot is applied
+// blindly) can produce: a live allocation dropped from / a released one resurrected in memory (memory != store),
+// the dropped address handed to a second subscriber, a current event refused because a ghost holds its address.
+var staleKinds = map[string]bool{"store-duplicate-address": true, "mem-store-disagree": true,
+	"stop-memory-differs-from-store": true, "remote-put-not-applied": true, "echo-put-not-applied": true}
+
+// failOn: subs / addrs name the subscribers and addresses the violation is about.  It is reported under the
+// listed signature <mode>/after-racy-delivery only with evidence that a stale event caused it: the kind is one
+// the root cause can produce AND one of the violated subscribers had its memory changed by an event that was
+// stale when delivered (and not repaired since), or the violated address is one such an event dropped or
+// resurrected.  Anything else noticed in a run that merely contained late / reordered deliveries keeps its
+// precise signature.
+func (n *node) failOn(kind string, subs, addrs []string, f string, a ...any) *violation {
 	sig := "C12/dist-" + n.cs.Mode + "/" + kind
-	if withTaint && n.taint != "" {
-		// a stale or out-of-order watch event was applied earlier in this run: memory is no longer a
-		// function of the store, so whatever is noticed afterwards is one finding (kind goes in the text)
-		sig = "C12/dist-" + n.cs.Mode + "/after-racy-delivery"
-		f = "[" + kind + "] " + f
+	base := kind
+	if i := strings.Index(kind, "/"); i >= 0 {
+		base = kind[:i]
 	}
-	return &violation{sig, fmt.Sprintf(f, a...) + "\n  pool " + n.cs.CIDR + fmt.Sprintf(" unit /%d grace %d", n.cs.Unit, n.cs.Grace) +
+	msg := fmt.Sprintf(f, a...)
+	if staleKinds[base] {
+		why := ""
+		for _, s := range subs {
+			if d, ok := n.staleSubs[s]; ok && why == "" {
+				why = d
+			}
+		}
+		for _, ad := range addrs {
+			if o, ok := n.staleSubs[n.staleAddrs[ad]]; ok && ad != "" && why == "" {
+				why = "address " + ad + ": " + o
+			}
+		}
+		if why != "" {
+			sig = "C12/dist-" + n.cs.Mode + "/after-racy-delivery"
+			msg = "[" + kind + " after " + why + "] " + msg
+		}
+	}
+	return &violation{sig, msg + "\n  pool " + n.cs.CIDR + fmt.Sprintf(" unit /%d grace %d", n.cs.Unit, n.cs.Grace) +
 		"\n  trace: " + strings.Join(n.out.trace, "; ") + "\n  store ops: " + strings.Join(n.st.oplog, ", ")}
 }
 
-// raiseTaint records that an event was delivered late (after a later local call on its key had
-// begun) or out of queue order.  Both real stores start one goroutine per callback, so such
-// schedules are producible; whatever is noticed after one is reported as <mode>/after-racy-delivery.
-func (n *node) raiseTaint(t string) {
-	n.taint = "racy-delivery"
-	n.class("delivery:" + t)
+// failT keeps the precise signature whatever was delivered before (restart comparisons, injected store failures).
+func (n *node) failT(kind string, _ bool, f string, a ...any) *violation {
+	return n.failOn(kind, nil, nil, f, a...)
+}
+
+// markStale records that an event which was stale w.r.t. the store at delivery time changed sub's memory.
+func (n *node) markStale(sub, desc string, addrs ...string) {
+	n.staleSubs[sub] = desc
+	for _, ad := range addrs {
+		if ad != "" {
+			n.staleAddrs[ad] = sub
+		}
+	}
+	n.class("delivery:stale-applied")
+}
+
+// healStale: a subscriber whose memory names the stored address again (re-allocated, released, or a current
+// event applied) no longer carries the damage of the stale event.
+func (n *node) healStale(st map[string]string) {
+	for s := range n.staleSubs {
+		if n.get(s) == st[s] {
+			delete(n.staleSubs, s)
+			for ad, o := range n.staleAddrs {
+				if o == s {
+					delete(n.staleAddrs, ad)
+				}
+			}
+		}
+	}
+}
+
+func (n *node) storedEpoch(sub string) (uint64, bool) {
+	for _, r := range n.st.snapshot() {
+		if r.key == keyPrefix+sub {
+			var a struct {
+				Epoch uint64 `json:"epoch"`
+			}
+			if json.Unmarshal(r.val, &a) == nil {
+				return a.Epoch, true
+			}
+		}
+	}
+	return 0, false
 }
 
 func (n *node) get(sub string) string {
@@ -225,12 +296,14 @@ func (n *node) touch(sub string) {
 	if n.lease() {
 		n.touched[sub] = n.epoch()
 		delete(n.expired, sub)
+		delete(n.loadTouched, sub)
 	}
 }
 
 func (n *node) untouch(sub string) {
 	delete(n.touched, sub)
 	delete(n.expired, sub)
+	delete(n.loadTouched, sub)
 }
 
 // ageLeases applies the documented expiry rule after the epoch moved.
@@ -291,13 +364,10 @@ func (n *node) checkAgree(api, subject string, failed []string, held bool) *viol
 				}
 				return n.failT(kind, false, "after %s(%s) with failed store ops %v: memory says %s=%q, store says %q", api, subject, failed, s, mem, st[s])
 			}
-			kind := "mem-store-disagree/" + api
-			if n.taint != "" {
-				kind = "mem-store-disagree" // where it is noticed is incidental once delivery was irregular
-			}
-			return n.fail(kind, "after %s(%s): memory says %s=%q, store says %q", api, subject, s, mem, st[s])
+			return n.failOn("mem-store-disagree/"+api, []string{s}, []string{mem, st[s]}, "after %s(%s): memory says %s=%q, store says %q", api, subject, s, mem, st[s])
 		}
 	}
+	n.healStale(st)
 	return nil
 }
 
@@ -371,10 +441,12 @@ func (n *node) deliverAt(i int) *violation {
 		}
 	}
 	stale := (ev.deleted && has) || (!ev.deleted && (!has || cur != recPrefix(ev.val)))
+	// out-of-queue-order delivery is a schedule both real stores can produce (one goroutine per callback); by
+	// itself it is no evidence of anything: only a STALE event that changes memory is (below)
 	if !firstForKey {
-		n.raiseTaint("reordered-same-key")
+		n.class("delivery:reordered-same-key")
 	} else if i != 0 {
-		n.raiseTaint("reordered-other-key")
+		n.class("delivery:reordered-other-key")
 	}
 	sub := strings.TrimPrefix(ev.key, keyPrefix)
 	pre := n.get(sub)
@@ -391,8 +463,16 @@ func (n *node) deliverAt(i int) *violation {
 	if stale {
 		// late: the key was written again after this event was queued.  Harmless if it changed nothing.
 		n.class("stale-event-delivered")
-		if n.get(sub) != pre {
-			n.raiseTaint("stale-applied")
+		if post := n.get(sub); post != pre {
+			n.markStale(sub, fmt.Sprintf("the stale event #%d (%s) for %s was applied while the store held %q: memory %q -> %q", ev.seq, evDesc(ev), sub, cur, pre, post),
+				pre, post, recPrefix(ev.val))
+			// the model's lease bookkeeping follows what memory did (SetAllocation sets the current generation,
+			// Release ends the lease), so that the lease's later expiry is not mistaken for a disagreement
+			if post == "" {
+				n.untouch(sub)
+			} else {
+				n.touch(sub)
+			}
 		}
 		return nil
 	}
@@ -403,7 +483,7 @@ func (n *node) deliverAt(i int) *violation {
 			got, want := n.get(sub), recPrefix(ev.val)
 			ignoredExpired := n.expired[sub] && got == "" // lease ran out in memory: ignoring the echo is fine
 			if got != want && !ignoredExpired {
-				return n.fail("echo-put-not-applied", "delivered the echo of put(%s,%s), which the store still holds; Get(%s) answers %q", sub, want, sub, got)
+				return n.failOn("echo-put-not-applied", []string{sub}, []string{got, want}, "delivered the echo of put(%s,%s), which the store still holds; Get(%s) answers %q", sub, want, sub, got)
 			}
 			if n.expired[sub] && got == want {
 				n.touch(sub) // the lease is live again at the current epoch
@@ -423,7 +503,7 @@ func (n *node) deliverAt(i int) *violation {
 	}
 	_ = json.Unmarshal(ev.val, &a)
 	if got := n.get(sub); got != a.Prefix {
-		return n.fail("remote-put-not-applied", "delivered put(%s,%s) announced by another node; Get(%s) answers %q", sub, a.Prefix, sub, got)
+		return n.failOn("remote-put-not-applied", []string{sub}, []string{got, a.Prefix}, "delivered put(%s,%s) announced by another node; Get(%s) answers %q", sub, a.Prefix, sub, got)
 	}
 	if pre == "" {
 		n.touch(sub) // a re-announcement for a held address does not renew the local lease: keep the older mark
@@ -530,7 +610,8 @@ func (n *node) remoteRecord(sub, prefix string) []byte {
 func runDist(t *testing.T, cs *distCase, rc runCfg) *runOut {
 	out := &runOut{classes: map[string]bool{}, stopRecs: -1}
 	body := func() {
-		n := &node{cs: cs, out: out, touched: map[string]uint64{}, expired: map[string]bool{}}
+		n := &node{cs: cs, out: out, touched: map[string]uint64{}, expired: map[string]bool{},
+			staleSubs: map[string]string{}, staleAddrs: map[string]string{}, loadTouched: map[string]bool{}}
 		if !cs.Exercise {
 			n.steer = steering{
 				leaseRestart: cs.Mode == "lease" && vstat.IsListed("C12/dist-lease/restart-differs-from-store"),
@@ -641,15 +722,37 @@ func (n *node) step(o op) *violation {
 			for o2, p2 := range st {
 				if o2 != sub && p2 == p.String() {
 					if n.expired[o2] {
-						kind := "store-duplicate-address/expired-record"
-						if n.cleanupFailed {
-							kind += "-cleanup-failed" // a store call of the epoch loop's cleanup was made to fail
-						} else if n.restarted {
-							kind += "-after-restart" // stored epochs stem from the previous incarnation's epoch counter
+						// the model's own epoch bookkeeping says o2's lease ran out (not renewed for more than grace
+						// epochs, never released since).  Why is its record still in the store?
+						es, _ := n.storedEpoch(o2)
+						cur := n.epoch()
+						// the epoch loop's cleanup removes records with epoch < current-2: was this one due at the latest tick?
+						due := cur >= 3 && es < cur-2
+						hit := ""
+						for _, fk := range n.lastTickFailedKeys {
+							if fk == "query "+keyPrefix || fk == "delete "+keyPrefix+o2 {
+								hit = fk
+							}
 						}
-						return n.failT(kind, false, "%s(%s) returned %s which the store still records for %s (lease ran out in memory, record not cleaned)", o.Kind, sub, p, o2)
+						kind := "store-duplicate-address/expired-record"
+						why := "cleanup not yet due"
+						switch {
+						case due && hit != "":
+							kind += "-cleanup-failed" // the cleanup pass of the latest tick would have removed it, and its store call failed
+							why = "cleanup was due, its store call [" + hit + "] was made to fail"
+						case due && n.manualAdvance:
+							why = "cleanup was due but the epoch was advanced through AdvanceEpoch, which runs no cleanup"
+						case due:
+							// the cleanup pass ran, every store call it made succeeded, the record was due - and is still there
+							kind += "-survived-cleanup"
+							why = "cleanup was due at the latest tick and none of its store calls failed"
+						case n.loadTouched[o2]:
+							kind += "-after-restart" // the node restarted after o2's last renewal: the stored epoch stems from the previous incarnation's counter
+							why = "cleanup not yet due by the stored epoch, which stems from before the restart"
+						}
+						return n.failT(kind, false, "%s(%s) returned %s which the store still records for %s (lease ran out in memory; record epoch %d, current epoch %d: %s)", o.Kind, sub, p, o2, es, cur, why)
 					}
-					return n.fail("store-duplicate-address", "%s(%s) returned %s which the store records for %s", o.Kind, sub, p, o2)
+					return n.failOn("store-duplicate-address", []string{sub, o2}, []string{p.String()}, "%s(%s) returned %s which the store records for %s", o.Kind, sub, p, o2)
 				}
 			}
 			if held != "" {
@@ -706,6 +809,7 @@ func (n *node) step(o op) *violation {
 			return nil
 		}
 		e := n.da.AdvanceEpoch()
+		n.manualAdvance = true
 		n.logf("advance->%d", e)
 		n.ageLeases()
 		n.class("op:advance")
@@ -724,6 +828,7 @@ func (n *node) step(o op) *violation {
 		n.st.clearFailed()
 		time.Sleep(epochPeriod)
 		synctest.Wait()
+		n.lastTickFailedKeys, n.manualAdvance = n.st.failedKeys(), false
 		failed := n.st.clearFailed()
 		n.logf("tick->%d", n.epoch())
 		n.ageLeases()
@@ -732,7 +837,6 @@ func (n *node) step(o op) *violation {
 			return nil
 		}
 		if len(failed) > 0 {
-			n.cleanupFailed = true
 			n.class("failure:tick-cleanup")
 		}
 		return n.checkAgree("tick", "", nil, false)
@@ -886,10 +990,12 @@ func (n *node) step(o op) *violation {
 		if v := n.compareRestart(n, contents, before, "in-history"); v != nil {
 			return v
 		}
-		n.taint = "" // memory was rebuilt from the store
-		n.restarted = true
+		// memory was rebuilt from the store
+		n.staleSubs, n.staleAddrs, n.loadTouched = map[string]string{}, map[string]string{}, map[string]bool{}
+		n.lastTickFailedKeys = nil
 		for s := range n.stored() {
 			n.touch(s)
+			n.loadTouched[s] = true
 		}
 		return nil
 	}
@@ -927,11 +1033,7 @@ func (n *node) compareRestart(r *node, contents []rec, before map[string]string,
 			return n.failT("restart-differs-from-store", false, "[%s] store records %s=%s; after restart Get(%s)=%q (before the stop: %q)", how, s, want, s, got, before[s])
 		}
 		if b := before[s]; b != "?" && b != want {
-			kind := "stop-memory-differs-from-store"
-			if n.taint != "" {
-				kind = "mem-store-disagree"
-			}
-			return n.fail(kind, "[%s] at the stop point memory said %s=%q, store records %q", how, s, b, want)
+			return n.failOn("stop-memory-differs-from-store", []string{s}, []string{b, want}, "[%s] at the stop point memory said %s=%q, store records %q", how, s, b, want)
 		}
 		_, pn, err := net.ParseCIDR(want)
 		if err == nil {
